@@ -9,6 +9,7 @@
    (3) [pip] = GEOS on simple rings is correspondence only. *)
 From Coq Require Import QArith ZArith NArith Bool List.
 From CR Require Import Base.QMod Model.Spatial Proofs.Spatial.
+From CR Require Model.CacheTable Gen.Src_cachetable Proofs.SrcCacheTable.
 From CR Require Import Model.ShapeCache Proofs.ShapeCache.
 Import ListNotations.
 Open Scope Q_scope.
@@ -169,6 +170,23 @@ Example C06_setters_nonvacuous :
          (rrun nat nat nat nat tok_verts tok_geom true r [RSetL 10]) RQVerts) = RVerts 12.
 Proof. exact rect_repaired_example. Qed.
 
+(* ---- the invalidation logic is the source's.  The effects each public setter of Rectangle / Circle / Polygon has on the
+   derived attributes are parsed from geometry/shape.py on every run (Gen/Src_cachetable.v: store, drop, rebuild, in
+   order; the dependency lists are the attributes the filling code reads).  [class_statement] (Proofs/SrcCacheTable.v):
+   for every way of deriving values that reads only those attributes, every history of calls of the parsed setters and of
+   queries, from a coherent object, ends coherent, and every query then answers what the object freshly built from the
+   current attributes answers. *)
+Theorem C06_rectangle_setters_are_source : SrcCacheTable.class_statement Src_cachetable.src_rectangle_caches Src_cachetable.src_rectangle_deps Src_cachetable.src_rectangle_setters.
+Proof. exact SrcCacheTable.src_rectangle_coherent. Qed.
+Theorem C06_circle_setters_are_source : SrcCacheTable.class_statement Src_cachetable.src_circle_caches Src_cachetable.src_circle_deps Src_cachetable.src_circle_setters.
+Proof. exact SrcCacheTable.src_circle_coherent. Qed.
+Theorem C06_polygon_setters_are_source : SrcCacheTable.class_statement Src_cachetable.src_polygon_caches Src_cachetable.src_polygon_deps Src_cachetable.src_polygon_setters.
+Proof. exact SrcCacheTable.src_polygon_coherent. Qed.
+Example C06_setter_tables_nonvacuous :
+  length Src_cachetable.src_rectangle_setters = 4 /\ length Src_cachetable.src_circle_setters = 2 /\ length Src_cachetable.src_polygon_setters = 1 /\
+  CacheTable.setter_ok Src_cachetable.src_rectangle_caches Src_cachetable.src_rectangle_deps {| CacheTable.s_attr := 0; CacheTable.s_main := [CacheTable.EStore]; CacheTable.s_tail := [] |} = false.
+Proof. vm_compute. repeat split; reflexivity. Qed.
+
 Print Assumptions C06_index_mirrors_lanelets.
 Print Assumptions C06_lookup_is_scan.
 Print Assumptions C06_find_by_position.
@@ -194,3 +212,7 @@ Print Assumptions C06_rectangle_setters_unrepaired_refuted.
 Print Assumptions C06_circle_setters_unrepaired_refuted.
 Print Assumptions C06_polygon_setter_unrepaired_refuted.
 Print Assumptions C06_setters_nonvacuous.
+Print Assumptions C06_rectangle_setters_are_source.
+Print Assumptions C06_circle_setters_are_source.
+Print Assumptions C06_polygon_setters_are_source.
+Print Assumptions C06_setter_tables_nonvacuous.
